@@ -233,9 +233,15 @@ def run(chk, repo, tier):
         _, paths, _ = analyse(repo, fm, types={('sym', 'wavefront'): wf, ('sym', 'self'): cls})
         for p in paths:
             notes += [e for e in p.events if e.kind == 'note' and e.data.get('rule') in ('B1', 'B2')]
-        msgs = sorted({f'{e.data["what"]} ({e.loc()})' for e in notes})
-        chk.ob('C08-f', 'B1/B2', cls.key, 'multiply/__init__ chain resolves and binds', not msgs,
-               '; '.join(msgs) if msgs else f'{fm.key} and the constructor chain resolve', fm.loc())
+        whats = {}
+        for e in notes:
+            whats.setdefault(e.data['what'], e)
+        for what, e in sorted(whats.items()):
+            chk.ob('C08-f', 'B1/B2', cls.key, f'unresolved: {what}', False,
+                   f'{what} - {cname} cannot be applied to a wavefront', e.loc())
+        if not whats:
+            chk.ob('C08-f', 'B1/B2', cls.key, 'multiply/__init__ chain resolves and binds', True,
+                   f'{fm.key} and the constructor chain resolve', fm.loc())
 
     # ---------------------------------------------------------------- C08-e
     allowed = {'wavefront.Wavefront.__init__': 'validated by the setter',
